@@ -26,16 +26,84 @@ if TYPE_CHECKING:
     from _griffe.models import Class, Module
 
 
-def _yield(element: str | Expr | tuple[str | Expr, ...], *, flat: bool = True) -> Iterator[str | Expr]:
+# Operator precedence levels, from the loosest to the tightest binding
+# (same ladder as the one `ast.unparse` uses to decide where parentheses are needed).
+_PREC_TUPLE = 0  # `a, b`, generator expressions
+_PREC_YIELD = 1  # `yield a`, `yield from a`
+_PREC_TEST = 2  # `a if b else c`, `lambda: a`
+_PREC_OR = 3  # `a or b`
+_PREC_AND = 4  # `a and b`
+_PREC_NOT = 5  # `not a`
+_PREC_CMP = 6  # `a < b`, `a in b`, `a is b`
+_PREC_BOR = 7  # `a | b`
+_PREC_BXOR = 8  # `a ^ b`
+_PREC_BAND = 9  # `a & b`
+_PREC_SHIFT = 10  # `a << b`, `a >> b`
+_PREC_ARITH = 11  # `a + b`, `a - b`
+_PREC_TERM = 12  # `a * b`, `a @ b`, `a / b`, `a // b`, `a % b`
+_PREC_FACTOR = 13  # `-a`, `+a`, `~a`
+_PREC_POWER = 14  # `a ** b`
+_PREC_ATOM = 15  # names, literals, calls, subscripts, attributes, displays...
+
+_binary_op_precedence = {
+    "|": _PREC_BOR,
+    "^": _PREC_BXOR,
+    "&": _PREC_BAND,
+    "<<": _PREC_SHIFT,
+    ">>": _PREC_SHIFT,
+    "+": _PREC_ARITH,
+    "-": _PREC_ARITH,
+    "*": _PREC_TERM,
+    "@": _PREC_TERM,
+    "/": _PREC_TERM,
+    "//": _PREC_TERM,
+    "%": _PREC_TERM,
+    "**": _PREC_POWER,
+}
+
+
+def _precedence(element: str | Expr | tuple[str | Expr, ...]) -> int:
+    # How tightly the rendered element binds: an element must be parenthesized
+    # when it appears where a tighter binding is required.
+    if isinstance(element, ExprBinOp):
+        return _binary_op_precedence.get(element.operator, _PREC_ATOM)
+    if isinstance(element, ExprBoolOp):
+        return _PREC_OR if element.operator == "or" else _PREC_AND
+    if isinstance(element, ExprUnaryOp):
+        return _PREC_NOT if element.operator == "not " else _PREC_FACTOR
+    if isinstance(element, ExprCompare):
+        return _PREC_CMP
+    if isinstance(element, (ExprIfExp, ExprLambda)):
+        return _PREC_TEST
+    if isinstance(element, (ExprYield, ExprYieldFrom)):
+        return _PREC_YIELD
+    if isinstance(element, ExprTuple) and element.implicit:
+        return _PREC_TUPLE
+    return _PREC_ATOM
+
+
+def _yield(
+    element: str | Expr | tuple[str | Expr, ...],
+    *,
+    flat: bool = True,
+    precedence: int = _PREC_TUPLE,
+) -> Iterator[str | Expr]:
+    # `precedence` is the binding level required at this place:
+    # elements binding less tightly are wrapped in parentheses.
+    parenthesize = precedence > _PREC_TUPLE and _precedence(element) < precedence
+    if parenthesize:
+        yield "("
     if isinstance(element, str):
         yield element
     elif isinstance(element, tuple):
         for elem in element:
-            yield from _yield(elem, flat=flat)
+            yield from _yield(elem, flat=flat, precedence=precedence)
     elif flat:
         yield from element.iterate(flat=True)
     else:
         yield element
+    if parenthesize:
+        yield ")"
 
 
 def _join(
@@ -43,15 +111,16 @@ def _join(
     joint: str | Expr,
     *,
     flat: bool = True,
+    precedence: int = _PREC_TUPLE,
 ) -> Iterator[str | Expr]:
     it = iter(elements)
     try:
-        yield from _yield(next(it), flat=flat)
+        yield from _yield(next(it), flat=flat, precedence=precedence)
     except StopIteration:
         return
     for element in it:
         yield from _yield(joint, flat=flat)
-        yield from _yield(element, flat=flat)
+        yield from _yield(element, flat=flat, precedence=precedence)
 
 
 def _field_as_dict(
@@ -184,7 +253,14 @@ class ExprAttribute(Expr):
     """The different parts of the dotted chain."""
 
     def iterate(self, *, flat: bool = True) -> Iterator[str | Expr]:
-        yield from _join(self.values, ".", flat=flat)
+        precedence = _PREC_ATOM
+        for value in self.values:
+            if precedence is None:
+                yield "."
+                yield from _yield(value, flat=flat)
+            else:
+                yield from _yield(value, flat=flat, precedence=precedence)
+                precedence = None  # type: ignore[assignment]
 
     def append(self, value: ExprName) -> None:
         """Append a name to this attribute.
@@ -232,9 +308,15 @@ class ExprBinOp(Expr):
     """Right part."""
 
     def iterate(self, *, flat: bool = True) -> Iterator[str | Expr]:
-        yield from _yield(self.left, flat=flat)
+        precedence = _binary_op_precedence.get(self.operator, _PREC_ATOM)
+        if precedence == _PREC_POWER:
+            # `**` binds right to left, and less tightly than a unary operator on its right: `(-a) ** -b ** c`.
+            left, right = _PREC_ATOM, _PREC_FACTOR
+        else:
+            left, right = precedence, precedence + 1
+        yield from _yield(self.left, flat=flat, precedence=left)
         yield f" {self.operator} "
-        yield from _yield(self.right, flat=flat)
+        yield from _yield(self.right, flat=flat, precedence=right)
 
 
 # YORE: EOL 3.9: Replace `**_dataclass_opts` with `slots=True` within line.
@@ -248,7 +330,8 @@ class ExprBoolOp(Expr):
     """Operands."""
 
     def iterate(self, *, flat: bool = True) -> Iterator[str | Expr]:
-        yield from _join(self.values, f" {self.operator} ", flat=flat)
+        precedence = _PREC_OR if self.operator == "or" else _PREC_AND
+        yield from _join(self.values, f" {self.operator} ", flat=flat, precedence=precedence + 1)
 
 
 # YORE: EOL 3.9: Replace `**_dataclass_opts` with `slots=True` within line.
@@ -267,9 +350,13 @@ class ExprCall(Expr):
         return self.function.canonical_path
 
     def iterate(self, *, flat: bool = True) -> Iterator[str | Expr]:
-        yield from _yield(self.function, flat=flat)
+        yield from _yield(self.function, flat=flat, precedence=_PREC_ATOM)
         yield "("
-        yield from _join(self.arguments, ", ", flat=flat)
+        if flat and len(self.arguments) == 1 and isinstance(self.arguments[0], ExprGeneratorExp):
+            # A generator expression that is the only argument needs no parentheses of its own.
+            yield from self.arguments[0]._iterate_bare(flat=True)
+        else:
+            yield from _join(self.arguments, ", ", flat=flat, precedence=_PREC_TEST)
         yield ")"
 
 
@@ -286,9 +373,14 @@ class ExprCompare(Expr):
     """Things compared."""
 
     def iterate(self, *, flat: bool = True) -> Iterator[str | Expr]:
-        yield from _yield(self.left, flat=flat)
+        yield from _yield(self.left, flat=flat, precedence=_PREC_CMP + 1)
         yield " "
-        yield from _join(zip_longest(self.operators, [], self.comparators, fillvalue=" "), " ", flat=flat)
+        yield from _join(
+            zip_longest(self.operators, [], self.comparators, fillvalue=" "),
+            " ",
+            flat=flat,
+            precedence=_PREC_CMP + 1,
+        )
 
 
 # YORE: EOL 3.9: Replace `**_dataclass_opts` with `slots=True` within line.
@@ -311,10 +403,10 @@ class ExprComprehension(Expr):
         yield "for "
         yield from _yield(self.target, flat=flat)
         yield " in "
-        yield from _yield(self.iterable, flat=flat)
+        yield from _yield(self.iterable, flat=flat, precedence=_PREC_OR)
         if self.conditions:
             yield " if "
-            yield from _join(self.conditions, " if ", flat=flat)
+            yield from _join(self.conditions, " if ", flat=flat, precedence=_PREC_OR)
 
 
 # TODO: `ExprConstant` is never instantiated,
@@ -349,6 +441,7 @@ class ExprDict(Expr):
             (("None" if key is None else key, ": ", value) for key, value in zip(self.keys, self.values)),
             ", ",
             flat=flat,
+            precedence=_PREC_TEST,
         )
         yield "}"
 
@@ -367,9 +460,9 @@ class ExprDictComp(Expr):
 
     def iterate(self, *, flat: bool = True) -> Iterator[str | Expr]:
         yield "{"
-        yield from _yield(self.key, flat=flat)
+        yield from _yield(self.key, flat=flat, precedence=_PREC_TEST)
         yield ": "
-        yield from _yield(self.value, flat=flat)
+        yield from _yield(self.value, flat=flat, precedence=_PREC_TEST)
         yield from _join(self.generators, " ", flat=flat)
         yield "}"
 
@@ -383,7 +476,7 @@ class ExprExtSlice(Expr):
     """Dims."""
 
     def iterate(self, *, flat: bool = True) -> Iterator[str | Expr]:
-        yield from _join(self.dims, ", ", flat=flat)
+        yield from _join(self.dims, ", ", flat=flat, precedence=_PREC_TEST)
 
 
 # YORE: EOL 3.9: Replace `**_dataclass_opts` with `slots=True` within line.
@@ -396,7 +489,7 @@ class ExprFormatted(Expr):
 
     def iterate(self, *, flat: bool = True) -> Iterator[str | Expr]:
         yield "{"
-        yield from _yield(self.value, flat=flat)
+        yield from _yield(self.value, flat=flat, precedence=_PREC_TEST)
         yield "}"
 
 
@@ -411,7 +504,12 @@ class ExprGeneratorExp(Expr):
     """Generators iterated on."""
 
     def iterate(self, *, flat: bool = True) -> Iterator[str | Expr]:
-        yield from _yield(self.element, flat=flat)
+        yield "("
+        yield from self._iterate_bare(flat=flat)
+        yield ")"
+
+    def _iterate_bare(self, *, flat: bool = True) -> Iterator[str | Expr]:
+        yield from _yield(self.element, flat=flat, precedence=_PREC_TEST)
         yield " "
         yield from _join(self.generators, " ", flat=flat)
 
@@ -429,11 +527,11 @@ class ExprIfExp(Expr):
     """Other expression."""
 
     def iterate(self, *, flat: bool = True) -> Iterator[str | Expr]:
-        yield from _yield(self.body, flat=flat)
+        yield from _yield(self.body, flat=flat, precedence=_PREC_OR)
         yield " if "
-        yield from _yield(self.test, flat=flat)
+        yield from _yield(self.test, flat=flat, precedence=_PREC_OR)
         yield " else "
-        yield from _yield(self.orelse, flat=flat)
+        yield from _yield(self.orelse, flat=flat, precedence=_PREC_TEST)
 
 
 # YORE: EOL 3.9: Replace `**_dataclass_opts` with `slots=True` within line.
@@ -488,7 +586,7 @@ class ExprKeyword(Expr):
     def iterate(self, *, flat: bool = True) -> Iterator[str | Expr]:
         yield self.name
         yield "="
-        yield from _yield(self.value, flat=flat)
+        yield from _yield(self.value, flat=flat, precedence=_PREC_TEST)
 
 
 # YORE: EOL 3.9: Replace `**_dataclass_opts` with `slots=True` within line.
@@ -501,7 +599,7 @@ class ExprVarPositional(Expr):
 
     def iterate(self, *, flat: bool = True) -> Iterator[str | Expr]:
         yield "*"
-        yield from _yield(self.value, flat=flat)
+        yield from _yield(self.value, flat=flat, precedence=_PREC_BOR)
 
 
 # YORE: EOL 3.9: Replace `**_dataclass_opts` with `slots=True` within line.
@@ -514,7 +612,7 @@ class ExprVarKeyword(Expr):
 
     def iterate(self, *, flat: bool = True) -> Iterator[str | Expr]:
         yield "**"
-        yield from _yield(self.value, flat=flat)
+        yield from _yield(self.value, flat=flat, precedence=_PREC_BOR)
 
 
 # YORE: EOL 3.9: Replace `**_dataclass_opts` with `slots=True` within line.
@@ -553,11 +651,11 @@ class ExprLambda(Expr):
             yield parameter.name
             if parameter.default and parameter.kind not in (ParameterKind.var_positional, ParameterKind.var_keyword):
                 yield "="
-                yield from _yield(parameter.default, flat=flat)
+                yield from _yield(parameter.default, flat=flat, precedence=_PREC_TEST)
             if index < length:
                 yield ", "
         yield ": "
-        yield from _yield(self.body, flat=flat)
+        yield from _yield(self.body, flat=flat, precedence=_PREC_TEST)
 
 
 # YORE: EOL 3.9: Replace `**_dataclass_opts` with `slots=True` within line.
@@ -570,7 +668,7 @@ class ExprList(Expr):
 
     def iterate(self, *, flat: bool = True) -> Iterator[str | Expr]:
         yield "["
-        yield from _join(self.elements, ", ", flat=flat)
+        yield from _join(self.elements, ", ", flat=flat, precedence=_PREC_TEST)
         yield "]"
 
 
@@ -586,7 +684,7 @@ class ExprListComp(Expr):
 
     def iterate(self, *, flat: bool = True) -> Iterator[str | Expr]:
         yield "["
-        yield from _yield(self.element, flat=flat)
+        yield from _yield(self.element, flat=flat, precedence=_PREC_TEST)
         yield " "
         yield from _join(self.generators, " ", flat=flat)
         yield "]"
@@ -688,7 +786,7 @@ class ExprNamedExpr(Expr):
         yield "("
         yield from _yield(self.target, flat=flat)
         yield " := "
-        yield from _yield(self.value, flat=flat)
+        yield from _yield(self.value, flat=flat, precedence=_PREC_TEST)
         yield ")"
 
 
@@ -717,7 +815,7 @@ class ExprSet(Expr):
 
     def iterate(self, *, flat: bool = True) -> Iterator[str | Expr]:
         yield "{"
-        yield from _join(self.elements, ", ", flat=flat)
+        yield from _join(self.elements, ", ", flat=flat, precedence=_PREC_TEST)
         yield "}"
 
 
@@ -733,7 +831,7 @@ class ExprSetComp(Expr):
 
     def iterate(self, *, flat: bool = True) -> Iterator[str | Expr]:
         yield "{"
-        yield from _yield(self.element, flat=flat)
+        yield from _yield(self.element, flat=flat, precedence=_PREC_TEST)
         yield " "
         yield from _join(self.generators, " ", flat=flat)
         yield "}"
@@ -753,13 +851,13 @@ class ExprSlice(Expr):
 
     def iterate(self, *, flat: bool = True) -> Iterator[str | Expr]:
         if self.lower is not None:
-            yield from _yield(self.lower, flat=flat)
+            yield from _yield(self.lower, flat=flat, precedence=_PREC_TEST)
         yield ":"
         if self.upper is not None:
-            yield from _yield(self.upper, flat=flat)
+            yield from _yield(self.upper, flat=flat, precedence=_PREC_TEST)
         if self.step is not None:
             yield ":"
-            yield from _yield(self.step, flat=flat)
+            yield from _yield(self.step, flat=flat, precedence=_PREC_TEST)
 
 
 # YORE: EOL 3.9: Replace `**_dataclass_opts` with `slots=True` within line.
@@ -773,9 +871,10 @@ class ExprSubscript(Expr):
     """Slice part."""
 
     def iterate(self, *, flat: bool = True) -> Iterator[str | Expr]:
-        yield from _yield(self.left, flat=flat)
+        yield from _yield(self.left, flat=flat, precedence=_PREC_ATOM)
         yield "["
-        yield from _yield(self.slice, flat=flat)
+        # An implicit tuple (`a[b, c]`) is the only thing that needs no parentheses there.
+        yield from _yield(self.slice, flat=flat, precedence=_PREC_TUPLE if isinstance(self.slice, ExprTuple) else _PREC_TEST)
         yield "]"
 
     @property
@@ -806,7 +905,7 @@ class ExprTuple(Expr):
     def iterate(self, *, flat: bool = True) -> Iterator[str | Expr]:
         if not self.implicit:
             yield "("
-        yield from _join(self.elements, ", ", flat=flat)
+        yield from _join(self.elements, ", ", flat=flat, precedence=_PREC_TEST)
         if len(self.elements) == 1:
             yield ","
         if not self.implicit:
@@ -825,7 +924,7 @@ class ExprUnaryOp(Expr):
 
     def iterate(self, *, flat: bool = True) -> Iterator[str | Expr]:
         yield self.operator
-        yield from _yield(self.value, flat=flat)
+        yield from _yield(self.value, flat=flat, precedence=_PREC_NOT if self.operator == "not " else _PREC_FACTOR)
 
 
 # YORE: EOL 3.9: Replace `**_dataclass_opts` with `slots=True` within line.
@@ -840,7 +939,7 @@ class ExprYield(Expr):
         yield "yield"
         if self.value is not None:
             yield " "
-            yield from _yield(self.value, flat=flat)
+            yield from _yield(self.value, flat=flat, precedence=_PREC_TEST)
 
 
 # YORE: EOL 3.9: Replace `**_dataclass_opts` with `slots=True` within line.
@@ -853,7 +952,7 @@ class ExprYieldFrom(Expr):
 
     def iterate(self, *, flat: bool = True) -> Iterator[str | Expr]:
         yield "yield from "
-        yield from _yield(self.value, flat=flat)
+        yield from _yield(self.value, flat=flat, precedence=_PREC_TEST)
 
 
 _unary_op_map = {
